@@ -1,6 +1,7 @@
 package main
 
 import (
+	"math"
 	"errors"
 	"fmt"
 	"sort"
@@ -412,6 +413,52 @@ func runC08(env *Env) {
 		in.Close()
 	}
 	// stored results are visible to every later task: a property bound to a variable is resolved anew for every request
+	// the stored result is the value that was answered, whatever its kind (floats with many digits, large integers,
+	// unicode, nested values)
+	for i, v := range []any{1727308801.0, 1727308801.25, 0.1 + 0.2, 1e300, -2.5e-7, float32(0.5), int64(1) << 53, int64(math.MaxInt64), uint32(4000000000), "日本語 \u00a0 x", "", true, []any{1.5, "a", int64(16777217)}, map[string]any{"f": 16777217.0, "s": "z"}} {
+		cs := fmt.Sprintf("result r1 = %#v (%T)", v, v)
+		env.Current(cs)
+		ty := "string"
+		switch v.(type) {
+		case float64, float32:
+			ty = "float"
+		case int64, uint32:
+			ty = "integer"
+		case bool:
+			ty = "boolean"
+		case []any:
+			ty = "array"
+		case map[string]any:
+			ty = "object"
+		}
+		q := &Prog{}
+		q.Node("start", "start")
+		qt := q.Node("task", "T")
+		qt.Ext = fmt.Sprintf(`<olive:results><olive:field name="r1" type="%s"/></olive:results>`, ty)
+		q.Node("task", "A")
+		q.Node("end", "end")
+		q.Flow("start", "T", "")
+		q.Flow("T", "A", "")
+		q.Flow("A", "end", "")
+		defs, err := ParseDefs(q.XML(""))
+		must(err)
+		in, err := StartInst(defs, InstOpt{})
+		must(err)
+		rep.Evaluations++
+		rep.Nontrivial++
+		rep.Count("result_value_kinds")
+		if !in.Answer("T", tmoStep, bpmn.DoWithResults(map[string]any{"r1": v})) {
+			rep.Violate("C08-results", cs, "T not requested")
+			in.Close()
+			continue
+		}
+		in.WaitUntil(tmoStep, func(l []Ev) bool { return countEv(l, "task", "A")+countEv(l, "task", "B")+countEv(l, "error", "*") > 0 })
+		got, ok := in.P.Locator().GetVariable("r1")
+		if !ok || !c16Same(v, got) {
+			rep.Violate("C08-results", cs, fmt.Sprintf("case %d: the stored result reads back %#v (%T, present %v)", i, got, got, ok))
+		}
+		in.Close()
+	}
 	propertyPerRequest(env, rep, "C08-results", "C08-results")
 	threeTokensOneTask(env, rep, "C08-first-wins", 4)
 	env.WriteCases(rep, "_modes", "Corr.C08corr", "list nat * nat * nat * nat", citems, "c08_modes_mismatches")
